@@ -37,6 +37,17 @@ def stepF (_ : Unit) (w : List String) : Option (Unit × String × List String) 
     let (_, next) := getResult s3 false
     some ((), s!"first={first} next={next}", [s!"{event}_{window}"] ++
       (if window == "wait" || window == "spawn" || window == "start" then ["event_between_check_and_park"] else []))
+  | ["capwake", n] => do
+    -- L1 model: after Put 1, n Gets, Put 2 and the forced trim of one value (FixedBufferCleaner(1,1): size 2 > 1 -> 2 - 1),
+    -- every consumer's next read is the value 2: all n parked Gets return it
+    let n ← n.toNat?
+    let s0 := (List.range n).foldl (fun s _ => (newConsumer s).1) init
+    let s1 := (put s0 [1]).1
+    let s2 := (List.range n).foldl (fun s c => (get s c).1) s1
+    let s3 := (put s2 [2]).1
+    let s4 := (cleanFixed s3 1 1).1
+    let woken := ((List.range n).filter fun c => match get s4 c with | (_, .val 2) => true | _ => false).length
+    some ((), s!"woken={woken} hung={n - woken}", ["wakeup_with_unchanged_size"])
   | _ => none
 
 def fam : Fam := { init := (), step := stepF }
